@@ -133,6 +133,49 @@ impl Schema {
         self.order.iter().map(move |k| &self.structs[k])
     }
 
+    /// Inverse of `parse`.
+    pub fn to_text(&self) -> String {
+        let mut out = String::new();
+        for d in self.iter() {
+            out.push_str(&format!("struct {}", d.key));
+            if let Some((c, i)) = d.cf {
+                out.push_str(&format!(" cf={c:02X}{i:02X}"));
+            }
+            out.push('\n');
+            for f in &d.fields {
+                let card = match f.card {
+                    Card::One => "1",
+                    Card::Opt => "?",
+                    Card::Many => "*",
+                };
+                let tag = f.tag.map(|t| format!("{t:X}")).unwrap_or_else(|| "-".into());
+                let len = match &f.len {
+                    Len::None => "-".to_string(),
+                    Len::Fixed(n) => format!("f{n}"),
+                    Len::Ll => "ll".into(),
+                    Len::Lll => "lll".into(),
+                    Len::Ber => "ber".into(),
+                    Len::Temp => "temp".into(),
+                };
+                let enc = match &f.enc {
+                    Enc::Int { ty: IntTy::U8, .. } => "u8".to_string(),
+                    Enc::Int { ty, be } => format!("{}{}", ty.rust(), if *be { "be" } else { "le" }),
+                    Enc::Bcd(ty) => format!("bcd:{}", ty.rust()),
+                    Enc::Cp437 => "cp437".into(),
+                    Enc::Hex => "hex".into(),
+                    Enc::Utf8 => "utf8".into(),
+                    Enc::Bytes => "bytes".into(),
+                    Enc::DateTime => "datetime".into(),
+                    Enc::Rcpt => "rcpt".into(),
+                    Enc::Struct(k) => format!("{{{k}}}"),
+                };
+                out.push_str(&format!("  {} {} {} {} {}\n", f.name, card, tag, len, enc));
+            }
+            out.push('\n');
+        }
+        out
+    }
+
     pub fn parse(text: &str) -> Schema {
         let mut schema = Schema::default();
         let mut cur: Option<StructDef> = None;
